@@ -8,7 +8,7 @@ base = json.load(open('/root/.vp/BASELINE.json'))
 stable = set(base['stable_pass'])
 with tempfile.TemporaryDirectory() as d:
     xml = os.path.join(d, 'j.xml')
-    env = dict(os.environ, PYTHONPATH=os.path.join(repo, 'src'))
+    env = dict(os.environ, PYTHONPATH=os.path.join(repo, 'src'), OMP_NUM_THREADS='1', OPENBLAS_NUM_THREADS='1', MKL_NUM_THREADS='1')  # one BLAS thread per xdist worker: 16x16 threads thrash
     for k in ('NUTILS_VERIF', 'NUTILS_MATRIX', 'VERIF_EXTRA_PYTHONPATH'):
         env.pop(k, None)
     p = subprocess.run((['nice', '-n', '-15'] if os.geteuid() == 0 else []) + ['/venv/bin/python', '-m', 'pytest', '-q', '-p', 'no:cacheprovider', '--timeout=900', '--continue-on-collection-errors',
